@@ -125,3 +125,23 @@ for _mod, _cls, _strs, _elems in _joint():
     OBLIGATIONS.append(Obl(name=f"{_cls}.joint", module="h_attrs", func="attr_joint", shadow=True, timeout=200, env=_env, extra=_x, replay="r_h_attrs:attr_joint", weight=6,
                            bounds=f"{_cls}(" + ", ".join(f"{p}=s+'{chr(97 + i)}'" for i, p in enumerate(_names)) + ("".join(f", {p}=<Paragraph> or absent" for p in _elems)) + ") with s a symbolic string of 1..2 printable ASCII characters",
                            encodes=_ENC, stubs=_STUB))
+
+# thorough tier: argument strings one character longer (VERIF_DEPTH=1)
+import copy as _copy  # noqa: E402
+
+for _o in list(OBLIGATIONS):
+    if _o.func in ("attr_str", "text_content_arg"):
+        _n = _copy.copy(_o)
+        _n.name = _o.name + "@d1"
+        _n.tier = "thorough"
+        _n.env = dict(_o.env or {}, VERIF_DEPTH="1")
+        _n.timeout = 400
+        _n.weight = 25
+        _n.bounds = _o.bounds + "; strings one character longer (<= 5, text_content <= 4)"
+        OBLIGATIONS.append(_n)
+        if _o.func == "attr_str":
+            _m = _copy.copy(_n)
+            _m.name = _o.name + "@d4"
+            _m.env = dict(_o.env or {}, VERIF_DEPTH="4")
+            _m.bounds = _o.bounds + "; strings of up to 8 characters"
+            OBLIGATIONS.append(_m)
